@@ -17,6 +17,9 @@ type Loop struct {
 	labelStart    string
 	labelBreak    string
 	labelContinue string
+	// How many `try` blocks of the current function were active when the loop was entered:
+	// `break` / `continue` leave the ones entered inside the loop body and must remove their handlers.
+	tryDepth uint
 }
 
 type Function struct {
@@ -39,6 +42,8 @@ type Compiler struct {
 	varScopes       []map[string]string
 	currScope       *map[string]string
 	currModule      string
+	// How many `try` blocks of the function being compiled are active at the current position.
+	tryDepth uint
 	// The global scope of each module: an identifier means what its own module defines or imports,
 	// even if other modules define globals with the same name.
 	globalScopes map[string]map[string]string
